@@ -201,6 +201,7 @@ Proof.
     split; [apply (step_invw g s Rollback); exact H1|]. split; [|reflexivity].
     unfold Inv2; simpl. repeat split; try apply Hc; try contradiction; try discriminate; auto.
   - destruct (g_versioning g); [apply create_transaction_all; exact H | exact H].
+  - destruct ((g_versioning g || g_native g) && u_live (s_uow s)); exact H.
 Qed.
 
 Theorem run_all g evs : cfg_consistent g -> InvAll g (run g evs).
